@@ -64,7 +64,7 @@ class AquilaOptimization(OptimizationAbstract):
         phi = -w * dim_list + phi0
         x = r * np.sin(phi)  # Eq.(9)
         y = r * np.cos(phi)  # Eq.(10)
-        QF = current_cycle ** ((2 * np.random.random() - 1) / (1 - max_cycles) ** 2)  # Eq.(15)
+        QF = current_cycle ** ((2 * np.random.random() - 1) / max((1 - max_cycles) ** 2, 1))  # Eq.(15)
 
         best_position = np.array(self._best_agent.position)
         pop_size = self._config.population_size
